@@ -122,7 +122,7 @@ def oracle(ctx, parser, sql, mode, ac, fmap):
                                         returned=short(got, 1200), requires="substitute(parse(sql), X) = " + short(substitute_default(dflt, x), 1200)))
             break
     # the value written by this call stays: a later call (here one that parses nothing) must not reach back into the tree already returned
-    st, got = call(parser, sql, mode, ac, fmap, null="FIRST")
+    st, got = call(parser, sql, mode, ac, fmap, null="FIRST") if (mode == "simple" or not fmap) else ("skip", None)
     if st == "ok":
         snap = copy.deepcopy(got)
         call(parser, "", mode, ac, fmap, null="SECOND")
@@ -154,7 +154,7 @@ def run(ctx):
     stmts = [("common_parser", s) for s in TEMPLATES]
     stmts += [(c["parser"], c["sql"]) for c in impl.corpus() if "null" in c["sql"].lower()]
     g = gens.G(rnd, null_rate=0.3)
-    gen = [x for x in (g.statement() for _ in range(ctx.n(110, 1500))) if len(x) <= 300]
+    gen = [x for x in (g.statement() for _ in range(ctx.n(110, 500))) if len(x) <= 300]
     for s in list(gen):
         gen += inject_nulls(rnd, s)
     stmts += [("common_parser", s) for s in gen]
